@@ -180,7 +180,7 @@ func runC08(tier, replay string) {
 				}
 			}()
 			// readers of live versions
-			var reads atomic.Int64
+			var reads, transientReadFailures atomic.Int64
 			for rd := 0; rd < 2; rd++ {
 				bg.Add(1)
 				rrng := rng.Fork(fmt.Sprintf("reader-%d", rd))
@@ -203,30 +203,23 @@ func runC08(tier, replay string) {
 							time.Sleep(200 * time.Microsecond)
 							continue
 						}
-						id := v.id
-						_, rds, err := s.GetObject(ctx, bn, storage.MustNewObjectKey(v.key), nil, &storage.GetObjectOptions{VersionID: &id})
-						reads.Add(1)
-						if err != nil {
-							violate(fmt.Sprintf("live-version-unreadable: GET %s@%s: %v", v.key, v.id, err))
-							continue
-						}
-						h := sha256.New()
-						var n int64
-						var rerr error
-						for _, x := range rds {
-							k, e := io.Copy(h, x)
-							n += k
-							if e != nil {
-								rerr = e
+						// A version stays live for the whole round, but a storage-class transition may
+						// swap its parts for copies in another store while this reader still holds the
+						// part list of its older read snapshot; such a read may fail (C40 decides what a
+						// started download may do). A referenced part that is really gone fails on every
+						// fresh attempt, so only a persistent failure is a C08 witness.
+						var problem string
+						for attempt := 0; attempt < 4; attempt++ {
+							problem = readLiveVersion(ctx, s, bn, v)
+							reads.Add(1)
+							if problem == "" || strings.HasPrefix(problem, "live-version-wrong-bytes") {
+								break // wrong bytes without an error are never acceptable
 							}
-							x.Close()
+							transientReadFailures.Add(1)
+							time.Sleep(300 * time.Microsecond)
 						}
-						var sum [32]byte
-						copy(sum[:], h.Sum(nil))
-						if rerr != nil {
-							violate(fmt.Sprintf("live-version-read-error: GET %s@%s failed after %d of %d bytes: %v", v.key, v.id, n, v.size, rerr))
-						} else if n != int64(v.size) || sum != v.hash {
-							violate(fmt.Sprintf("live-version-wrong-bytes: GET %s@%s returned %d bytes (expected %d) hash mismatch=%v", v.key, v.id, n, v.size, sum != v.hash))
+						if problem != "" {
+							violate(problem)
 						}
 					}
 				}()
@@ -374,6 +367,7 @@ func runC08(tier, replay string) {
 			r.Count("gc_passes_during_rounds", gcPasses.Load())
 			r.Count("gc_hook_hits_while_writers_active", gcOverlaps.Load())
 			r.Count("online_version_reads", reads.Load())
+			r.Count("online_reads_failed_then_succeeded_on_retry(snapshot_vs_transition)", transientReadFailures.Load())
 			r.Count("live_versions_tracked", int64(len(live)))
 			if strings.HasPrefix(stack, "outbox") {
 				waitPartOutboxDrained(env)
@@ -464,4 +458,33 @@ func cleanupBucket(ctx context.Context, s storage.Storage, bn storage.BucketName
 		}
 	}
 	_ = s.DeleteBucket(ctx, bn)
+}
+
+// readLiveVersion GETs one recorded live version by id and returns a problem description or "".
+func readLiveVersion(ctx context.Context, s storage.Storage, bn storage.BucketName, v *verInfo) string {
+	id := v.id
+	_, rds, err := s.GetObject(ctx, bn, storage.MustNewObjectKey(v.key), nil, &storage.GetObjectOptions{VersionID: &id})
+	if err != nil {
+		return fmt.Sprintf("live-version-unreadable: GET %s@%s: %v", v.key, v.id, err)
+	}
+	h := sha256.New()
+	var n int64
+	var rerr error
+	for _, x := range rds {
+		k, e := io.Copy(h, x)
+		n += k
+		if e != nil {
+			rerr = e
+		}
+		x.Close()
+	}
+	var sum [32]byte
+	copy(sum[:], h.Sum(nil))
+	if rerr != nil {
+		return fmt.Sprintf("live-version-read-error: GET %s@%s failed after %d of %d bytes on 4 consecutive attempts: %v", v.key, v.id, n, v.size, rerr)
+	}
+	if n != int64(v.size) || sum != v.hash {
+		return fmt.Sprintf("live-version-wrong-bytes: GET %s@%s returned %d bytes (expected %d) hash mismatch=%v", v.key, v.id, n, v.size, sum != v.hash)
+	}
+	return ""
 }
